@@ -45,7 +45,7 @@ func vfsPut(name string, data []byte) string {
 	path := vtmpdir() + "/" + name
 	if vnative() {
 		if err := os.WriteFile(path, data, 0o644); err != nil {
-			panic(err)
+			panic(vVectorError{"native fixture: " + err.Error()}) // an environment problem is not a finding
 		}
 		return path
 	}
